@@ -245,5 +245,8 @@ pub fn run(tier: &str, seed: u64, dir: &str) {
     cross_standard!(&mut out, &mut rng, n, f64);
     rgb_standards!(&mut out, &mut rng, n / 4 + 8, f32);
     rgb_standards!(&mut out, &mut rng, n / 4 + 8, f64);
+    // coverage audit: forms, entry points, boundary inputs and type parameters the clauses above do not drive (`c01_more.rs`).  Called last, so
+    // that the case stream above is unchanged.
+    crate::c01_more::run_more(&mut out, &mut rng, tier, &routes);
     out.finish(dir, "");
 }
